@@ -305,14 +305,12 @@ def one_receiver_stream(col: Collector, rng, index: int):
     import cascade.executor.msg as msg
     from cascade.executor.serde import ser_message
     from cascade.low.core import DatasetId
-    from vlib.checks.c17 import FakePoller, FakeSock
+    from vlib.checks.c17 import fake_listener
     acks = []
     real_cb = comms.callback
     comms.callback = lambda a, m: acks.append((a, m))
     try:
-        lst = object.__new__(comms.Listener)
-        sock = FakeSock()
-        lst.address, lst.socket, lst.poller, lst.acked = "fake", sock, FakePoller(sock), set()
+        lst, sock = fake_listener(comms)
         senders = [f"ack://s{j}" for j in range(rng.randint(1, 3))]
         originals = []
         for j, snd in enumerate(senders):
@@ -383,14 +381,12 @@ def one_malformed(col: Collector, rng, index: int):
     import cascade.executor.msg as msg
     from cascade.executor.serde import ser_message
     from cascade.low.core import DatasetId
-    from vlib.checks.c17 import FakePoller, FakeSock
+    from vlib.checks.c17 import fake_listener
     acks = []
     real_cb = comms.callback
     comms.callback = lambda a, m: acks.append((a, m))
     try:
-        lst = object.__new__(comms.Listener)
-        sock = FakeSock()
-        lst.address, lst.socket, lst.poller, lst.acked = "fake", sock, FakePoller(sock), set()
+        lst, sock = fake_listener(comms)
         syn = ser_message(msg.Syn(rng.randrange(1000), "ack://x"))
         syn2 = ser_message(msg.Syn(rng.randrange(1000, 2000), "ack://x"))
         m = msg.DatasetPurge(DatasetId(f"t{rng.randrange(99)}", "0"))
